@@ -17,6 +17,9 @@
 (*                 (level 0) and index files of level 1..MaxLevel, each with the ids it *)
 (*                 adds and the ids it tombstones (Partition.buildSeriesSet: oldest to  *)
 (*                 newest, "remove tombstones, then add");                              *)
+(*   tagSrc[sh]    the series whose tag key / tag value entries the shard's TSI files    *)
+(*                 list (unfiltered SHOW TAG KEYS / VALUES read these entries, not the  *)
+(*                 series; see the recorded deviation "tsiTagEntriesLinger" below);     *)
 (*   inmG, inmS    the database-wide in-memory index and the per-shard id bitsets of    *)
 (*                 inmem.ShardIndex; both are rebuilt from the stored keys at open      *)
 (*                 (Engine.LoadMetadataIndex);                                          *)
@@ -32,6 +35,7 @@
 (*   for the time range of one shard, or for one time slot), DropMeasurement.           *)
 (* Physical actions, which must be invisible: LogToIndexFile, CompactLevel,             *)
 (*   SeriesFileCompact, Snapshot, Reopen.                                               *)
+(* The model describes the code with the repairs patches/C14/01..05 (see notes/C14.md). *)
 EXTENDS Integers, Sequences, FiniteSets, TLC
 
 CONSTANTS U,          \* subset of 0..17
